@@ -394,6 +394,231 @@ fn keyword_sets(parser_c: &str, ts: &TokSet) -> (Vec<usize>, Vec<usize>) {
     (kws, ambig)
 }
 
+
+// ------------------------------------------------------------------------------------------------
+// context-aware lexing: two-mode grammars.  `(` switches to mode A, `)` to mode B; each token is
+// valid in mode A, mode B or both; optionally token y is valid only directly after token x.
+// Different parse states therefore have different valid token sets, which exercises lex-state
+// construction per token set, lex-state merging and minimisation.
+
+#[derive(Clone, Debug)]
+struct ModeSet { extras: usize, follow: Option<(usize, usize)>, toks: Vec<Tok>, masks: Vec<u8> }
+
+impl ModeSet {
+    fn marks(&self) -> (usize, usize) { (self.toks.len() - 2, self.toks.len() - 1) }
+    fn ser(&self) -> String {
+        let mut s = format!("mx{}f{}", self.extras, self.follow.map(|(a, b)| format!("{a}.{b}")).unwrap_or("-".into()));
+        for (t, m) in self.toks.iter().zip(&self.masks) { s.push_str(&format!(";{},{},{},{}", t.prec, t.is_string as u8, m, t.re.ser())); }
+        s
+    }
+    fn parse(s: &str) -> ModeSet {
+        let mut parts = s.split(';');
+        let h = parts.next().unwrap();
+        let fi = h.find('f').unwrap();
+        let extras = h[2..fi].parse().unwrap_or(0);
+        let follow = { let f = &h[fi + 1..]; if f == "-" { None } else { let mut it = f.split('.'); Some((it.next().unwrap().parse().unwrap(), it.next().unwrap().parse().unwrap())) } };
+        let mut toks = Vec::new();
+        let mut masks = Vec::new();
+        for p in parts {
+            let mut f = p.splitn(4, ',');
+            let prec = f.next().unwrap().parse().unwrap();
+            let is_string = f.next().unwrap() == "1";
+            masks.push(f.next().unwrap().parse().unwrap());
+            let mut i = 0;
+            toks.push(Tok { prec, is_string, re: parse_re(f.next().unwrap().as_bytes(), &mut i) });
+        }
+        ModeSet { extras, follow, toks, masks }
+    }
+    fn grammar(&self, name: &str) -> String {
+        let sym = |i: usize| json!({"type":"SYMBOL","name":format!("t{i}")});
+        let (ma, mb) = self.marks();
+        let mut rules = serde_json::Map::new();
+        rules.insert("source".into(), json!({"type":"REPEAT","content":{"type":"CHOICE","members":[{"type":"SYMBOL","name":"_ma"},{"type":"SYMBOL","name":"_mb"}]}}));
+        for (mode, (rule, mark)) in [("_ma", ma), ("_mb", mb)].iter().enumerate() {
+            let mut items: Vec<Value> = Vec::new();
+            for i in 0..self.toks.len() - 2 {
+                if self.masks[i] & (1 << mode) == 0 { continue; }
+                items.push(sym(i));
+                if let Some((x, y)) = self.follow { if x == i { items.push(json!({"type":"SEQ","members":[sym(x), sym(y)]})); } }
+            }
+            rules.insert((*rule).into(), json!({"type":"SEQ","members":[sym(*mark), {"type":"REPEAT","content":{"type":"CHOICE","members":items}}]}));
+        }
+        let base = TokSet { word: None, extras: self.extras, toks: self.toks.clone() };
+        let g: Value = serde_json::from_str(&base.grammar(name)).unwrap();
+        for (k, v) in g["rules"].as_object().unwrap() { if k != "source" { rules.insert(k.clone(), v.clone()); } }
+        let mut g2 = g.clone();
+        // keep `source` first
+        let mut ordered = serde_json::Map::new();
+        ordered.insert("source".into(), rules["source"].clone());
+        for (k, v) in rules { if k != "source" { ordered.insert(k, v); } }
+        g2["rules"] = Value::Object(ordered);
+        serde_json::to_string(&g2).unwrap()
+    }
+}
+
+fn sample_re(re: &Re, rng: &mut Rng, out: &mut Vec<u32>) {
+    match re {
+        Re::Lit(v) => out.extend(v),
+        Re::Cls(neg, rs) => {
+            if *neg {
+                let cand: Vec<u32> = ALPHA.iter().copied().filter(|c| !rs.iter().any(|(a, b)| a <= c && c <= b)).collect();
+                out.push(if cand.is_empty() { 0x7a } else { *rng.pick(&cand) });
+            } else {
+                let (a, b) = *rng.pick(rs);
+                out.push(a + rng.below((b - a + 1) as usize) as u32);
+            }
+        }
+        Re::Seq(a, b) => { sample_re(a, rng, out); sample_re(b, rng, out); }
+        Re::Alt(a, b) => if rng.chance(1, 2) { sample_re(a, rng, out) } else { sample_re(b, rng, out) },
+        Re::Star(a) => for _ in 0..rng.below(3) { sample_re(a, rng, out) },
+        Re::Plus(a) => for _ in 0..rng.range(1, 3) { sample_re(a, rng, out) },
+        Re::Opt(a) => if rng.chance(1, 2) { sample_re(a, rng, out) },
+        Re::Rep(m, n, a) => for _ in 0..rng.range(*m, *n) { sample_re(a, rng, out) },
+    }
+}
+
+fn rand_mode_set(rng: &mut Rng) -> ModeSet {
+    let base = loop { let b = rand_set(rng); if b.word.is_none() { break b; } };
+    let mut toks: Vec<Tok> = base.toks.into_iter().filter(|t| match &t.re { Re::Lit(v) => !(v.len() == 1 && (v[0] == 0x28 || v[0] == 0x29)), _ => true }).collect();
+    if toks.len() > 10 { toks.truncate(10); }
+    let n = toks.len();
+    let mut masks: Vec<u8> = (0..n).map(|_| *rng.pick(&[1u8, 2, 3, 1, 2])).collect();
+    if !masks.iter().any(|m| m & 1 != 0) { masks[0] |= 1; }
+    if !masks.iter().any(|m| m & 2 != 0) { masks[n - 1] |= 2; }
+    let mut follow = None;
+    if n >= 3 && rng.chance(1, 2) {
+        let x = rng.below(n);
+        let y = (x + 1 + rng.below(n - 1)) % n;
+        // y is not a plain item of the modes in which x is valid: it is valid only after x there
+        let keep = masks[y] & !masks[x];
+        if masks[x] != 0 && (keep != 0 || true) {
+            masks[y] = keep;
+            follow = Some((x, y));
+            // every other token must still leave both modes non-empty
+            if !masks.iter().enumerate().any(|(i, m)| i != y && m & 1 != 0) || !masks.iter().enumerate().any(|(i, m)| i != y && m & 2 != 0) {
+                for (i, m) in masks.iter_mut().enumerate() { if i != y { *m = 3; } }
+            }
+        }
+    }
+    toks.push(Tok { prec: 0, is_string: true, re: Re::Lit(vec![0x28]) });
+    toks.push(Tok { prec: 0, is_string: true, re: Re::Lit(vec![0x29]) });
+    masks.push(3);
+    masks.push(3);
+    ModeSet { extras: base.extras, follow, toks, masks }
+}
+
+/// Every lexing step of the real parser, from the parse log: `tok:pos:end:state` where `pos` is the
+/// position the lexer started from (before skipping extras), `end` the end of the token (character
+/// offsets) and `state` the parse state the parser was in.  Recorded while the parser runs a single
+/// stack version and until the first error; prefix `E` / `K` = tree with / without error.
+fn real_lex_events(parser: &mut Parser, cps: &[u32]) -> String {
+    use std::sync::{Arc, Mutex};
+    let text: String = cps.iter().map(|c| char::from_u32(*c).unwrap()).collect();
+    let mut byte_to_char = vec![0usize; text.len() + 2];
+    let mut k = 0;
+    for (ci, (bi, ch)) in text.char_indices().enumerate() {
+        for j in 0..ch.len_utf8() { byte_to_char[bi + j] = ci; }
+        k = ci + 1;
+    }
+    byte_to_char[text.len()] = k;
+    byte_to_char[text.len() + 1] = k;
+    #[derive(Default)]
+    struct Rec { state: i64, col: usize, armed: bool, stopped: bool, events: Vec<(String, usize, usize, i64)> }
+    let rec = Arc::new(Mutex::new(Rec::default()));
+    let r2 = rec.clone();
+    parser.set_logger(Some(Box::new(move |ty, msg| {
+        if ty != tree_sitter::LogType::Parse { return; }
+        let mut r = r2.lock().unwrap();
+        if r.stopped { return; }
+        if let Some(rest) = msg.strip_prefix("process version:") {
+            // "V, version_count:C, state:S, row:R, col:C"
+            let num = |key: &str| -> i64 { rest.split(key).nth(1).map(|x| x.split(',').next().unwrap().trim().parse().unwrap_or(-1)).unwrap_or(-1) };
+            if num("version_count:") != 1 || num("row:") != 0 { r.stopped = true; return; }
+            r.state = num("state:");
+            r.col = num("col:") as usize;
+            r.armed = true;
+        } else if let Some(rest) = msg.strip_prefix("lexed_lookahead sym:") {
+            if !r.armed { return; }
+            r.armed = false;
+            if let Some(i) = rest.rfind(", size:") {
+                let size: usize = rest[i + 7..].parse().unwrap_or(0);
+                let (st, col) = (r.state, r.col);
+                r.events.push((rest[..i].to_string(), col, col + size, st));
+            }
+        } else if msg.starts_with("detect_error") || msg.starts_with("recover") || msg.starts_with("skip_token") {
+            r.stopped = true;
+        }
+    })));
+    let tree = parser.parse(text.as_bytes(), None);
+    parser.set_logger(None);
+    let err = match &tree { Some(t) => t.root_node().has_error(), None => true };
+    let r = rec.lock().unwrap();
+    let mut out = vec![if err { "E".to_string() } else { "K".to_string() }];
+    for (name, pos, end, st) in &r.events {
+        if *st == 0 || *pos > text.len() || *end > text.len() + 1 { break; }
+        let tok = if name == "end" { "end".to_string() } else if let Some(n) = name.strip_prefix('t') { if n.chars().all(|c| c.is_ascii_digit()) { n.to_string() } else { "other".into() } } else { "other".into() };
+        out.push(format!("{tok}:{}:{}:{st}", byte_to_char[*pos], byte_to_char[(*end).min(text.len())]));
+    }
+    out.join(",")
+}
+
+fn run_mode_set(out: &mut impl Write, id: &str, ms: &ModeSet, strings: &mut dyn FnMut(&mut dyn FnMut(&[u32]))) -> Result<usize, String> {
+    let name = format!("c14m_{}", id.replace('-', "_"));
+    let b = zoo::build_from_json(&ms.grammar(&name), None, tree_sitter_generate::OptLevel::default())?;
+    let mut parser = Parser::new();
+    parser.set_language(&b.language).map_err(|e| e.to_string())?;
+    writeln!(out, "mset {id} {}", ms.ser()).unwrap();
+    // valid token set of every parse state, from the real look-ahead iterator (= the parse table rows)
+    let l = &b.language;
+    for st in 0..l.parse_state_count() {
+        let mut v: Vec<String> = Vec::new();
+        if let Some(it) = l.lookahead_iterator(st as u16) {
+            for sym in it.take(l.node_kind_count() + 8) {
+                if let Some(k) = l.node_kind_for_id(sym) { if let Some(num) = k.strip_prefix('t') { if num.chars().all(|c| c.is_ascii_digit()) && !num.is_empty() { v.push(num.to_string()); } } }
+            }
+        }
+        writeln!(out, "vs {st} {}", if v.is_empty() { "-".to_string() } else { v.join(",") }).unwrap();
+    }
+    let mut n = 0usize;
+    strings(&mut |cps: &[u32]| {
+        let r = real_lex_events(&mut parser, cps);
+        writeln!(out, "m {} {r}", cps_hex(cps)).unwrap();
+        n += 1;
+    });
+    writeln!(out, "endmset {id}").unwrap();
+    Ok(n)
+}
+
+fn mode_strings(ms: &ModeSet, rng: &mut Rng, n_random: usize, enum_len: usize, f: &mut dyn FnMut(&[u32])) {
+    let (ma, mb) = ms.marks();
+    let mut enum_syms: Vec<u32> = ALPHA.to_vec();
+    enum_syms.push(0x20);
+    // marker followed by every short string
+    fn rec(s: &mut Vec<u32>, left: usize, syms: &[u32], f: &mut dyn FnMut(&[u32])) {
+        f(s);
+        if left == 0 { return; }
+        for c in syms { s.push(*c); rec(s, left - 1, syms, f); s.pop(); }
+    }
+    for mark in [0x28u32, 0x29] { let mut s = vec![mark]; rec(&mut s, enum_len, &enum_syms, f); }
+    // random sentences of the grammar, tokens glued or separated by blanks
+    for _ in 0..n_random {
+        let mut s: Vec<u32> = Vec::new();
+        for _ in 0..rng.range(1, 4) {
+            let mode = rng.below(2);
+            s.push(if mode == 0 { 0x28 } else { 0x29 });
+            let items: Vec<usize> = (0..ms.toks.len() - 2).filter(|i| ms.masks[*i] & (1 << mode) != 0).collect();
+            for _ in 0..rng.below(5) {
+                if rng.chance(1, 2) { s.push(0x20); }
+                let i = *rng.pick(&items);
+                sample_re(&ms.toks[i].re, rng, &mut s);
+                if let Some((x, y)) = ms.follow { if x == i && rng.chance(1, 2) { if rng.chance(1, 2) { s.push(0x20); } sample_re(&ms.toks[y].re, rng, &mut s); } }
+            }
+        }
+        let _ = (ma, mb);
+        f(&s);
+    }
+}
+
 fn run_set(out: &mut impl Write, id: &str, ts: &TokSet, strings: &mut dyn FnMut(&mut dyn FnMut(&[u32]))) -> Result<usize, String> {
     let name = format!("c14_{}", id.replace('-', "_"));
     let b = zoo::build_from_json(&ts.grammar(&name), None, tree_sitter_generate::OptLevel::default())?;
@@ -423,9 +648,16 @@ fn main() {
             let line = line.trim();
             if line.is_empty() || line.starts_with('#') { continue; }
             let parts: Vec<&str> = line.split_whitespace().collect();
-            let ts = TokSet::parse(parts[0]);
             let strs: Vec<Vec<u32>> = parts[1..].iter().map(|s| parse_cps(s)).collect();
             let id = format!("{prefix}{i}");
+            if parts[0].starts_with('m') {
+                let ms = ModeSet::parse(parts[0]);
+                if let Err(e) = run_mode_set(out, &id, &ms, &mut |f| { for s in &strs { f(s); } }) {
+                    writeln!(out, "skip {id} {}", e.replace('\n', " ")).unwrap();
+                }
+                continue;
+            }
+            let ts = TokSet::parse(parts[0]);
             if let Err(e) = run_set(out, &id, &ts, &mut |f| { for s in &strs { f(s); } }) {
                 writeln!(out, "skip {id} {}", e.replace('\n', " ")).unwrap();
             }
@@ -469,6 +701,20 @@ fn main() {
             Err(e) => { rejected += 1; writeln!(out, "skip {id} {} {}", ts.ser(), e.replace('\n', " ").chars().take(160).collect::<String>()).unwrap(); }
         }
     }
+    // context-aware lexing: two-mode grammars
+    let (n_modes, n_sent, enum_len) = if thorough { (120, 1500, 4) } else { (30, 600, 3) };
+    let mut mbuilt = 0usize;
+    for k in 0..n_modes {
+        let mut srng = rng.fork();
+        let ms = rand_mode_set(&mut srng);
+        let id = format!("m{}-{k}", seed_from_env() % 100000);
+        let mut gen = |f: &mut dyn FnMut(&[u32])| mode_strings(&ms, &mut srng.clone(), n_sent, enum_len, f);
+        match run_mode_set(&mut out, &id, &ms, &mut gen) {
+            Ok(n) => { mbuilt += 1; total += n; }
+            Err(e) => { rejected += 1; writeln!(out, "skip {id} {} {}", ms.ser(), e.replace('\n', " ").chars().take(160).collect::<String>()).unwrap(); }
+        }
+    }
     out.flush().unwrap();
+    eprintln!("c14: {mbuilt} two-mode grammars built;");
     eprintln!("c14: {built} token sets built, {rejected} rejected by the generator, {total} strings");
 }
